@@ -957,7 +957,7 @@ def _coq_cred(c):
 def _coq_op(o):
     if o[0] == 'setpw':
         return '(OpSetPw %s %d)' % (_coq_user(o[1]), o[2])
-    return {'put': 'OpPutDevice', 'patchother': 'OpPatchOther'}[o[0]]
+    return {'put': 'OpPutDevice', 'patchother': 'OpPatchOther', 'restart': 'OpRestart'}[o[0]]
 
 
 def evaluate_state(ctx, res, data):
